@@ -15,6 +15,11 @@ def main():
     run = Run("C06", "translation_validation", "RX+CH")
     tpls = T.gamma6(tier(), seed())
     lemmas.run_templates(run, tpls)
+    # the operand must reach the normaliser in one piece: split points are exactly the separator commas (LX lemma of C09)
+    from vlib import common as _c
+
+    _c.use_repo()
+    c09.split_lemmas(run)
     hs = [h for h in c09.harnesses(tier()) if any(x in h.name for x in ("/mem4/", "/mem4_nobase/", "/mem3/", "/mem1/", "/mem0/", "/mem3_suffix/", "/mem0_suffix/"))]
     for h in hs:
         h.key = "parser_" + h.key
